@@ -127,6 +127,36 @@ CHECKS = {
              "of the 31 well-formed types, PRNG sequences of length 4..7, a document without a domain type",
         assumptions=[],
     ),
+    "C09": dict(
+        level="model_checking",
+        mc=[dict(module="MC_Numbers", workers=16)],
+        gen=[dict(module="Gen_C09", slices=dict(quick=16, thorough=16))],
+        rule="MC_Numbers: exact denotation of every JSON-number literal up to length 6 over {- 0 1 9 . e +} (total; "
+             "equal values get equal denotations); Gen_C09: uintN/intN for N in {8,16,64,128,248,256} (quick) / all 32 "
+             "widths (thorough) x the 8 range boundaries x 5 spellings x 5 nesting positions; bytesN for N in 1..32 "
+             "with N-1, N, N+1 and 33 bytes; fixed arrays with k-1, k, k+1 elements in outer and inner dimensions; "
+             "missing/undeclared members at 3 nesting levels; undefined struct types; 10 type kinds x 11 JSON values",
+        assumptions=[],
+    ),
+    "C10": dict(
+        level="model_checking",
+        mc=[dict(module="MC_Eip191", workers=16)],
+        gen=[dict(module="Gen_C10", slices=dict(quick=4, thorough=8))],
+        rule="MC_Eip191: DecimalAscii(n) canonical and inverted by Atoi for every n in 0..20000 (quick) / 0..1000001 "
+             "(thorough); Gen_C10: every message length 0..300 (quick) / 0..1100 (thorough) with position dependent "
+             "content, all 256 one-byte messages, non-UTF-8 and whitespace-only content, lengths 10^k-1, 10^k, 10^k+1 "
+             "for k = 4, 5 (quick) and 6 (thorough)",
+        assumptions=["Keccak-256 is a trusted primitive"],
+    ),
+    "C13": dict(
+        level="model_checking",
+        mc=[dict(module="MC_Numbers", workers=16)],
+        gen=[dict(module="Gen_C13", slices=dict(quick=8, thorough=16))],
+        rule="MC_Numbers (see C09); Gen_C13: 16 boundary integers x 10 spellings in rotating (quick) / all 16 (thorough) "
+             "numeric slots of the three kinds, 56 malformed spellings x 3 slots, byte fields / recipients / storage "
+             "keys of wrong length, prefix and case, wrong-shape access-list entries, chainId null",
+        assumptions=TX_ASSUME,
+    ),
 }
 
 # Text for MANIFEST.json (tools/mkmanifest.py)
@@ -198,6 +228,26 @@ MANIFEST_TEXT = {
              "document and the accept/refuse outcome (and digests when accepted) validated by TLC.",
         design_ref="6 (C20)", note=_TRUST,
         technique="TLC exhaustive model check of the scan machine + trace validation"),
+    "C09": dict(
+        text="Conformance of a JSON value to its declared type is a TLA+ predicate over exact number denotations "
+             "(digit-string arithmetic, no floating point); every generated document with a value at or beyond a "
+             "range/length/shape boundary is submitted to the real library and TLC checks that non-conforming values "
+             "are refused and conforming ones hash to the C08 digests.",
+        design_ref="6 (C09)", note=_TRUST,
+        technique="TLC model check of the number denotation + trace validation of boundary documents"),
+    "C10": dict(
+        text="The EIP-191 digest is a TLA+ definition (prefix, DecimalAscii of the byte length, message) over the "
+             "Keccak primitive; DecimalAscii is model-checked for every length up to 10^6+1, and the library's digests "
+             "for every generated message are validated by TLC.",
+        design_ref="6 (C10)", note=_TRUST + " TLA+ is an executable functional reference here.",
+        technique="TLC model check of DecimalAscii + trace validation"),
+    "C13": dict(
+        text="Number spellings have an exact denotation in TLA+ (model-checked for totality and consistency over all "
+             "short literals); every generated transaction document is decoded, signed and encoded by the real "
+             "library and TLC validates that standard spellings are accepted with the denoted integer (identical "
+             "encodings across spellings), malformed ones refused, and open spellings either refused or exact.",
+        design_ref="6 (C13)", note=_TRUST,
+        technique="TLC model check of the number denotation + trace validation"),
     "C07": dict(
         text="TLC proves on the specification (MC_Rlp, exhaustive over a bounded structurally complete universe) that "
              "the strict decoder inverts the encoder and rejects every non-canonical variant; the implementation is "
